@@ -10,7 +10,7 @@ import re
 import socket
 import struct
 
-from . import pkt
+from . import pkt, sigref
 from .pkt import ET_ARP, ET_IP4, ET_IP6, P_ICMP, P_ICMP6, P_TCP, P_UDP, csum_ok, pseudo
 
 
@@ -92,6 +92,10 @@ def mirror(f, r, cfg, prior=b""):
             ok = any(a.sp == (q.dp + k) & 0xFFFF for k in ks if k > 0)
             if not ok:
                 errs.append("sport %d is not the request's destination port %d" % (a.sp, q.dp))
+        elif ks == {1} and "ulen" in q and a.get("data") and a.data[:2] != b"\x01\x01" and sigref.identify(q.data, True) == sigref.STUN:
+            # a datagram that completes a STUN signature and asks for a port change is STUN's to answer: whoever answers it
+            # from the unchanged port (another responder that got hold of it) breaks the one exception to "ports swapped"
+            errs.append("stun_port change-port request to port %d answered (not by the STUN responder) from port %d instead of %d" % (q.dp, a.sp, (q.dp + 1) & 0xFFFF))
         elif ks == {1} and a.get("data") and len(a.data) >= 20 and a.data[:2] == b"\x01\x01":
             # the reply *is* a STUN success response to a request with exactly one change-port CHANGE-REQUEST
             # (under both attribute walks): it has to come from the next port
